@@ -120,7 +120,7 @@ SIGN_SPLIT = {("lorentz", "Et"), ("lorentz", "to_beta3")}
 
 
 # unary Lorentz operations whose definition is finite for spacelike vectors (stored with a negative tau)
-SPACELIKE_UNARY = ("t", "t2", "tau", "tau2", "beta", "rapidity", "Et", "Et2", "Mt", "Mt2", "to_beta3", "is_timelike", "is_spacelike", "is_lightlike", "scale", "unit", "boostX_beta", "boostZ_gamma")
+SPACELIKE_UNARY = ("t", "t2", "tau", "tau2", "beta", "rapidity", "Et", "Et2", "Mt", "Mt2", "to_beta3", "is_timelike", "is_spacelike", "is_lightlike", "scale", "unit", "boostX_beta", "boostY_beta", "boostZ_beta", "boostX_gamma", "boostY_gamma", "boostZ_gamma")
 
 
 def make_fn(pkg, name, module, sig, upper=None, momentum=(False, False), tsign=0, abstract=True, spacelike=False, mt2sign=0):
